@@ -1,4 +1,5 @@
 //! Shared building blocks for the runtime monitors (one binary per property in src/bin).
+pub mod engines;
 pub mod evidence;
 pub mod rng;
 pub mod par;
